@@ -524,6 +524,8 @@ def gen_meta(rng, dims):
         mp = [[l, rng.choice(dims)] for l in lab][: max(1, len(lab) - 1)]
     else:
         mp = [[l, rng.choice(dims)] for l in rng.sample(LABELPOOL, len(lab))]
+    if mp is not None:  # what reaches the setter is a dict: duplicate keys collapse
+        mp = [[k, v] for k, v in {k: v for k, v in mp}.items()]
     return nv, vd, mp
 
 
@@ -592,6 +594,7 @@ def run_meta(case, obs):
             if lab is not None and rng.random() < 0.6:
                 m2 = [[l, rng.choice(dims)] for l in lab]
                 rng.shuffle(m2)
+                m2 = [[k, v] for k, v in {k: v for k, v in m2}.items()]
 
             def step():
                 f.vdim_mapping = None if m2 is None else {k: v for k, v in m2}
